@@ -427,6 +427,188 @@ def err_text(e: BaseException) -> str:
     return f'ERR:OTHER:{type(e).__name__}'
 
 
+
+# ------------------------------------------------------------- call-site reuse (templates)
+# In "reuse" mode every step is evaluated through ONE parsed token per expression shape, shared by
+# all histories of the run: operands, keys, positions and option values are passed as variables.
+# A function that keeps anything of one evaluation on its token shows up as a wrong later result.
+_TOKENS: dict = {}
+_KEYOBJ: dict = {}
+
+
+def key_object(k):
+    """the Python value of a key literal (evaluated once through the real parser)"""
+    _setup()
+    if k not in _KEYOBJ:
+        from elementpath import XPathContext
+        _KEYOBJ[k] = _PARSER().parse(key_xpath(k)).evaluate(XPathContext(_ROOT))
+    return _KEYOBJ[k]
+
+
+def op_template(op):
+    """(expression with variables, bindings as a function of the history's values)"""
+    n = op[0]
+    b = {}
+
+    def P(i):
+        name = f'p{len([x for x in b if x[0] == "p"])}'
+        b[name] = ('var', i)
+        return '$' + name
+
+    def K(k):
+        name = f'k{len([x for x in b if x[0] == "k"])}'
+        b[name] = ('key', k)
+        return '$' + name
+
+    def KS(ks):
+        name = f'q{len([x for x in b if x[0] == "q"])}'
+        b[name] = ('keys', list(ks))
+        return '$' + name
+
+    def N(x):
+        name = f'n{len([x for x in b if x[0] == "n"])}'
+        b[name] = ('raw', x)
+        return '$' + name
+    if n == 'seq':
+        e = '(' + ', '.join(P(a) if isinstance(a, int) else K(a) for a in op[1]) + ')'
+    elif n == 'mctor':
+        e = 'map{' + ', '.join(f'{K(k)}: {P(i)}' for k, i in op[1]) + '}'
+    elif n == 'mput':
+        e = f'map:put({P(op[1])}, {K(op[2])}, {P(op[3])})'
+    elif n == 'mremove':
+        e = f'map:remove({P(op[1])}, {KS(op[2])})'
+    elif n in ('mget', 'mcontains', 'mfind'):
+        e = f'map:{n[1:]}({P(op[1])}, {K(op[2])})'
+    elif n in ('msize', 'mkeys'):
+        e = f'map:{n[1:]}({P(op[1])})'
+    elif n == 'mentry':
+        e = f'map:entry({K(op[1])}, {P(op[2])})'
+    elif n == 'mmerge':
+        e = f'map:merge({P(op[1])})' if op[2] == 'default' else \
+            f"map:merge({P(op[1])}, map{{'duplicates': {N(POLICY_XP[op[2]])}}})"
+    elif n == 'mforeach':
+        e = f'map:for-each({P(op[1])}, function($kk, $vv) {{ [$kk, $vv] }})'
+    elif n == 'lookup':
+        if op[2] == '*':
+            e = f'{P(op[1])}?*'
+        elif len(op) > 3 and op[3] == 'unary':
+            e = f'{P(op[1])} ! ?({KS(op[2])})'
+        else:
+            e = f'{P(op[1])}?({KS(op[2])})'
+    elif n == 'asquare':
+        e = '[' + ', '.join(P(i) for i in op[1]) + ']'
+    elif n == 'acurly':
+        e = f'array{{{P(op[1])}}}'
+    elif n == 'aget':
+        e = f'array:get({P(op[1])}, {N(op[2])})'
+    elif n == 'aput':
+        e = f'array:put({P(op[1])}, {N(op[2])}, {P(op[3])})'
+    elif n == 'ainsert':
+        e = f'array:insert-before({P(op[1])}, {N(op[2])}, {P(op[3])})'
+    elif n == 'aappend':
+        e = f'array:append({P(op[1])}, {P(op[2])})'
+    elif n == 'aremove':
+        e = f'array:remove({P(op[1])}, {N(list(op[2]))})'
+    elif n == 'asub':
+        e = f'array:subarray({P(op[1])}, {N(op[2])})' if op[3] is None else \
+            f'array:subarray({P(op[1])}, {N(op[2])}, {N(op[3])})'
+    elif n in ('ahead', 'atail', 'areverse', 'ajoin', 'aflatten', 'asize'):
+        e = f'array:{n[1:]}({P(op[1])})'
+    elif n == 'afe':
+        f = op[2]
+        fx = fn1_xpath(f) if isinstance(f, str) else 'function($xx) { %s }' % K(f[1])
+        e = f'array:for-each({P(op[1])}, {fx})'
+    elif n == 'afl':
+        e = f'array:filter({P(op[1])}, {PRED_XP[op[2]]})'
+    elif n == 'afoldl':
+        e = f'array:fold-left({P(op[1])}, {P(op[2])}, {FN2_XP[op[3]]})'
+    elif n == 'afoldr':
+        e = f'array:fold-right({P(op[1])}, {P(op[2])}, {FN2_XP[op[3]]})'
+    elif n == 'apair':
+        e = f'array:for-each-pair({P(op[1])}, {P(op[2])}, {FN2_XP[op[3]]})'
+    elif n == 'mfe':
+        e = f'map:for-each({P(op[1])}, {FN2_XP[op[2]]})'
+    elif n == 'deq':
+        e = f'deep-equal({P(op[1])}, {P(op[2])})'
+    else:
+        raise ValueError(op)
+    return e, b
+
+
+def bind(b, values):
+    out = {}
+    for name, (kind, x) in b.items():
+        if kind == 'var':
+            out[name] = values[x]
+        elif kind == 'key':
+            out[name] = key_object(x)
+        elif kind == 'keys':
+            out[name] = [key_object(k) for k in x]
+        else:
+            out[name] = x
+    return out
+
+
+def eval_template(op, values):
+    from elementpath import XPathContext
+    expr, b = op_template(op)
+    tok = _TOKENS.get(expr)
+    if tok is None:
+        tok = _TOKENS[expr] = _PARSER().parse(expr)
+    return tok.evaluate(XPathContext(_ROOT, variables=bind(b, values)))
+
+
+# the same call site evaluated several times inside ONE expression: a `for` over alternative
+# argument values, directly or through a named function reference (map:get#2 ...)
+FUNREF = {'mget': 'map:get#2', 'mcontains': 'map:contains#2', 'mfind': 'map:find#2', 'mremove': 'map:remove#2',
+          'aget': 'array:get#2', 'mmerge': 'map:merge#2'}
+ALL_POLICIES = ['use-first', 'use-last', 'combine', 'use-any', 'reject']
+
+
+def loop_reuse_check(rng_choice, op, values, alts) -> str:
+    """`for $x in alts return [F(args with $x)]` must be the list of the single-call results
+    (call_site_reuse_eq_map).  alts are Python values for the varying argument."""
+    from elementpath import XPathContext
+    n = op[0]
+    useref = rng_choice and n in FUNREF
+    call = FUNREF[n].split('#')[0] if n in FUNREF else ''
+    if n == 'mmerge':
+        body = f"{'$f' if useref else call}($p0, map{{'duplicates': $x}})"
+    elif n in ('mget', 'mcontains', 'mfind', 'mremove', 'aget'):
+        body = f"{'$f' if useref else call}($p0, $x)"
+    elif n == 'mput':
+        body = 'map:put($p0, $x, $p1)'
+    elif n == 'aput':
+        body = 'array:put($p0, $x, $p1)'
+    elif n == 'lookup':
+        body = '$p0?($x)'
+    else:
+        return 'ok'
+    single_expr = body.replace('$f', call)
+    loop_expr = ('let $f := ' + FUNREF[n] + ' return ' if useref else '') + f'for $x in $alts return [{body}]'
+    base = {'p0': values[op[1]]}
+    if n in ('mput', 'aput'):
+        base['p1'] = values[op[3]]
+    singles = []
+    for a in alts:
+        try:
+            r = _PARSER().parse(single_expr).evaluate(XPathContext(_ROOT, variables=dict(base, x=a)))
+            singles.append(('ok', show_seq([] if r is None else r, False)))
+        except Exception as e:  # noqa
+            singles.append((err_text(e), ''))
+            break                      # the loop stops at the first error too
+    try:
+        r = _PARSER().parse(loop_expr).evaluate(XPathContext(_ROOT, variables=dict(base, alts=list(alts))))
+        members = r if isinstance(r, list) else [r]
+        got = [('ok', show_seq(m.items()[0] if len(m.items()) == 1 else 'BAD-MEMBER-COUNT', False)) for m in members]
+    except Exception as e:  # noqa
+        got = [(err_text(e), '')]
+    want = singles if singles and singles[-1][0] == 'ok' else [singles[-1]]
+    if got != want:
+        return f'{loop_expr} with {len(alts)} alternatives: loop {got} single calls {want}'
+    return 'ok'
+
+
 class CaseTimeout(Exception):
     pass
 
@@ -435,19 +617,35 @@ def _alarm(signum, frame):
     raise CaseTimeout()
 
 
-def run_impl(ops, seconds: int = 10):
+def run_impl(ops, seconds: int = 10, mode: str = 'literal'):
     """run_impl_inner under a watchdog: a history that does not finish (cyclic or exploding
     structure after an in-place mutation) is an observation, not a harness fault"""
     import signal
     old = signal.signal(signal.SIGALRM, _alarm)
     signal.alarm(seconds)
     try:
-        return run_impl_inner(ops)
+        return run_impl_inner(ops, mode)
     except CaseTimeout:
         return [('ERR:OTHER:Timeout', ['TIMEOUT'], ['TIMEOUT'], 'ok')] * len(ops)
     finally:
         signal.alarm(0)
         signal.signal(signal.SIGALRM, old)
+
+
+LOOP_OPS = ('mmerge', 'mget', 'mcontains', 'mfind', 'mremove', 'aget', 'mput', 'aput', 'lookup')
+
+
+def loop_alternatives(op):
+    n = op[0]
+    if n == 'mmerge':
+        return list(ALL_POLICIES)
+    if n in ('aget', 'aput'):
+        return [op[2], 1, 2, 0, 3]
+    if n == 'lookup':
+        base = [] if op[2] == '*' else list(op[2][:1])
+        return [key_object(k) for k in base + [('i', 1), ('s', 'a'), ('i', 2)]]
+    k0 = op[2][0] if n == 'mremove' and op[2] else (op[2] if n != 'mremove' else ('i', 1))
+    return [key_object(k) for k in [k0, ('i', 1), ('d', '1.0'), ('s', 'a'), ('f', 'NaN')]]
 
 
 def lazy_token_check(op, expr, variables, res, status) -> str:
@@ -503,7 +701,7 @@ def lazy_token_check(op, expr, variables, res, status) -> str:
     return 'ok'
 
 
-def run_impl_inner(ops):
+def run_impl_inner(ops, mode: str = 'literal'):
     """evaluate the history with the real code; returns per step (status, [raw prints], [sorted prints])"""
     _setup()
     from elementpath import XPathContext
@@ -514,8 +712,11 @@ def run_impl_inner(ops):
         expr = op_xpath(op)
         variables = {f'v{i}': val for i, val in enumerate(values)}
         try:
-            token = _PARSER().parse(expr)
-            res = token.evaluate(XPathContext(_ROOT, variables=variables))
+            if mode == 'reuse':
+                res = eval_template(op, values)
+            else:
+                token = _PARSER().parse(expr)
+                res = token.evaluate(XPathContext(_ROOT, variables=variables))
             if res is None:
                 res = []
             status = 'ok'
@@ -524,7 +725,14 @@ def run_impl_inner(ops):
         except Exception as e:  # noqa -- everything the implementation raises is an observation
             res, status = [], err_text(e)
         lazy = 'ok'
-        if op[0] in ('mctor', 'asquare', 'acurly'):
+        if mode == 'reuse' and op[0] in LOOP_OPS and (len(out) * 7 + len(ops)) % 3 == 0:
+            try:
+                lazy = loop_reuse_check((len(out) + len(ops)) % 2 == 0, op, values, loop_alternatives(op))
+            except RecursionError:
+                lazy = 'RecursionError'
+            except Exception as e:  # noqa
+                lazy = 'loop:' + err_text(e)
+        elif mode != 'reuse' and op[0] in ('mctor', 'asquare', 'acurly'):
             try:
                 lazy = lazy_token_check(op, expr, variables, res, status)
             except RecursionError:
@@ -756,6 +964,21 @@ class Gen:
             return self.add(('mfind', val, k), 'free')
         if c == 'lookup':
             src = rng.choice([x for x in (m, a) if x is not None])
+            if rng.random() < 0.45:
+                # a SEQUENCE of maps / arrays as left operand: for each item, for each key
+                xs = [self.pick('map', 'arr') for _ in range(rng.choice([2, 2, 3, 0, 1]))]
+                if rng.random() < 0.1 and val is not None:
+                    xs.append(val)                       # possibly an atom in between: XPTY0004
+                self.add(('seq', [x for x in xs if x is not None]), 'mixed')
+                src = len(self.ops) - 1
+                ks = []
+                for _ in range(rng.choice([1, 2, 2, 3])):
+                    r = rng.random()
+                    ks.append(('i', rng.randrange(0, 4)) if r < 0.5 else
+                              self.existing_key(src) if r < 0.85 else self.key())
+                if rng.random() < 0.15:
+                    return self.add(('lookup', src, '*'), 'free')
+                return self.add(('lookup', src, ks, rng.choice(['paren', 'paren', 'unary'])), 'seq')
             if rng.random() < 0.2:
                 return self.add(('lookup', src, '*'), 'free' if self.types[src] == 'map' else 'seq')
             if self.types[src] == 'arr':
@@ -967,6 +1190,16 @@ CORPUS = [
     # the two empty binaries share a dict slot (same text, same hash); non-empty ones do not
     [('seq', [('i', 1)]), ('mentry', ('x', ''), 0), ('mget', 1, ('y', '')), ('mentry', ('x', '61'), 0), ('mget', 3, ('y', 'YQ==')),
      ('mctor', [(('x', ''), 0), (('y', ''), 0)]), ('mctor', [(('x', '61'), 0), (('y', 'YQ=='), 0)])],
+    # lookups over SEQUENCES of maps/arrays with sequence key expressions: for each item, for each key
+    [('seq', [('i', 1)]), ('seq', [('i', 2), ('i', 3)]), ('mctor', [(('i', 1), 0), (('s', 'a'), 1)]), ('mctor', [(('d', '1.0'), 1)]),
+     ('asquare', [0, 1, 0]), ('asquare', [1]), ('seq', [2, 3, 4]), ('lookup', 6, [('i', 1)], 'paren'),
+     ('lookup', 6, [('i', 1), ('s', 'a')], 'paren'), ('seq', [4, 5]), ('lookup', 9, [('i', 1), ('i', 2)], 'paren'),
+     ('lookup', 9, [('i', 1)], 'paren'), ('lookup', 6, '*'), ('lookup', 6, [('i', 1)], 'unary'), ('seq', [5, 4]),
+     ('lookup', 14, [('i', 1), ('i', 2)], 'paren'), ('lookup', 14, [('i', 2), ('i', 1)], 'unary')],
+    # map:merge call site evaluated repeatedly with different options on maps with a duplicate key
+    [('seq', [('i', 1)]), ('seq', [('i', 2)]), ('mctor', [(('i', 1), 0)]), ('mctor', [(('d', '1.0'), 1)]), ('seq', [2, 3]),
+     ('mmerge', 4, 'first'), ('mmerge', 4, 'last'), ('mmerge', 4, 'combine'), ('mmerge', 4, 'reject'), ('mmerge', 4, 'first'),
+     ('mmerge', 4, 'default')],
     # F15t: a QName key is not the string of its lexical form
     [('seq', [('i', 1)]), ('mctor', [(('q', ('u', 'b', '')), 0)]), ('mremove', 1, [('s', 'b')]), ('mcontains', 1, ('s', 'b')),
      ('mput', 1, ('s', 'b'), 0), ('mfind', 1, ('s', 'b'))],
@@ -1048,7 +1281,7 @@ def classify_tags(ops, k):
     return sorted(tags)
 
 
-def compare(run: Run, cases, count=True) -> None:
+def compare(run: Run, cases, count=True, reuse_every: int = 2) -> None:
     lines = [line_of(c) for c in cases]
     answers = run.driver('C15', lines)
     st = run.stats
@@ -1057,15 +1290,27 @@ def compare(run: Run, cases, count=True) -> None:
             run.disagree(Disagreement(line, 'driver:' + ans, what='protocol'))
             continue
         blocks = parse_answer(ans)
-        impl = run_impl(ops)
         if count:
             st.case(line, nontrivial=len(ops) > 1)
             st.count(f'len={min(len(ops), 15) // 5 * 5}+')
+        modes = ['literal'] + (['reuse'] if reuse_every and (__import__('zlib').crc32(line.encode()) % reuse_every == 0) else [])
+        for mode in modes:
+            compare_one(run, ops, line, blocks, run_impl(ops, mode=mode), mode, count and mode == 'literal')
+
+
+def compare_one(run, ops, line, blocks, impl, mode, count):
+    st = run.stats
+    if mode == 'reuse':
+        st.count('histories-through-shared-tokens')
+    if True:
         spec_dead = False
         for k, ((ms, ss, ok, triples), (istat, iraw, isrt, lazy)) in enumerate(zip(blocks, impl)):
             op = ops[k]
             prefix = {'ops': [op_xpath(o) for o in ops[:k + 1]], 'line': line_of(ops[:k + 1]),
                       'history': to_jsonable(ops[:k + 1])}
+            if mode == 'reuse':
+                prefix['mode'] = ('every step evaluated through one shared parsed token per expression shape '
+                                  '(operands and keys as variables): ' + op_template(op)[0])
             if count:
                 st.count('op:' + op[0])
                 for kk in op_keys(op):
@@ -1087,7 +1332,8 @@ def compare(run: Run, cases, count=True) -> None:
                 j = first_diff(isrt, [t[2] for t in triples]) if istat == ss else None
                 what = ('result/status of the new value' if j is None or j == k else
                         f'value $v{j} created earlier changed (in-place mutation)')
-                run.disagree(Disagreement(prefix, i_s, m_s, spec=s_s, what=what, site=site, tags=tags))
+                run.disagree(Disagreement(prefix, i_s, m_s, spec=s_s, what=('call-site reuse: ' if mode == 'reuse' else '') + what,
+                                          site=site, tags=tags))
                 if tags:
                     # a listed finding: from here on the spec run has a different state; the rest of the
                     # history is still compared with the model (which mirrors the code)
@@ -1095,15 +1341,22 @@ def compare(run: Run, cases, count=True) -> None:
                 else:
                     stop = True
             if lazy != 'ok':
-                run.disagree(Disagreement(prefix, 'token-api: ' + lazy, None, spec='token-api: same as evaluate()',
-                                          what='constructor token keys()/items()/call vs evaluate()',
-                                          site='elementpath/xpath_tokens/maps.py|arrays.py _evaluate', tags=tags))
+                if mode == 'reuse':
+                    run.disagree(Disagreement(prefix, 'call-site reuse: ' + lazy, None,
+                                              spec='call-site reuse: loop = list of single-call results',
+                                              what='same call site evaluated several times (for / function reference)',
+                                              site=site, tags=tags))
+                else:
+                    run.disagree(Disagreement(prefix, 'token-api: ' + lazy, None, spec='token-api: same as evaluate()',
+                                              what='constructor token keys()/items()/call vs evaluate()',
+                                              site='elementpath/xpath_tokens/maps.py|arrays.py _evaluate', tags=tags))
                 stop = True
             # 2. tie: implementation vs model (insertion order, exact)
             i_r = istat + ' ' + ' '.join(iraw)
             m_r = ms + ' ' + ' '.join(t[0] for t in triples)
             if i_r != m_r:
-                run.disagree(Disagreement(prefix, i_r, m_r, what='model-vs-code', site=site))
+                run.disagree(Disagreement(prefix, i_r, m_r, what='model-vs-code' + ('/shared-token' if mode == 'reuse' else ''),
+                                          site=site))
                 stop = True
             if stop:
                 break
@@ -1272,7 +1525,7 @@ def shrink(d: Disagreement) -> Disagreement:
 
     def fails(cand):
         sub = Run(PROP, 'quick', 0)
-        compare(sub, [cand], count=False)
+        compare(sub, [cand], count=False, reuse_every=1)
         for x in sub.disagreements:
             if x.kind == d.kind and bool(x.tags) == bool(d.tags):
                 return x
